@@ -481,6 +481,7 @@ fn parent(monitor: &'static dyn Monitor, args: &Args) -> i32 {
         .collect();
     let watchdog = Duration::from_secs(monitor.watchdog_s(args.tier));
     let mut deaths: Vec<Finding> = vec![];
+    let mut violations_from_deaths: u64 = 0;
     let mut timed_out = false;
     while !running.is_empty() {
         let mut i = 0;
@@ -527,16 +528,28 @@ fn parent(monitor: &'static dyn Monitor, args: &Args) -> i32 {
                             r.k
                         ));
                     } else {
+                        let sig_probe = format!(
+                            "process-death:{}@{pname}",
+                            desc.split('(').next().unwrap_or("")
+                        );
+                        if deaths.iter().any(|d| d.signature == sig_probe) {
+                            violations_from_deaths += 1;
+                        } else {
+                            violations_from_deaths += 1;
                         deaths.push(Finding {
                             phase: pname.to_string(),
                             idx: culprit.unwrap_or(lo),
-                            signature: format!("process-death:{}", desc.split('(').next().unwrap_or("")),
+                            signature: format!(
+                                "process-death:{}@{pname}",
+                                desc.split('(').next().unwrap_or("")
+                            ),
                             detail: json!({
                                 "worker": r.k, "status": desc, "batch": [lo, hi],
                                 "pinpointed": culprit.is_some(),
                                 "note": "the worker process running the code under test died; see journal"
                             }),
                         });
+                        }
                     }
                     if j.is_some() && r.respawns < 20 {
                         r.respawns += 1;
@@ -575,7 +588,7 @@ fn parent(monitor: &'static dyn Monitor, args: &Args) -> i32 {
     let mut counters: BTreeMap<String, u64> = BTreeMap::new();
     let mut samples: Vec<Value> = vec![];
     let mut violations: Vec<Finding> = deaths;
-    let mut violations_total: u64 = violations.len() as u64;
+    let mut violations_total: u64 = violations_from_deaths;
     let mut known: BTreeMap<String, (u64, Finding)> = BTreeMap::new();
     let mut evaluations = 0u64;
     let mut capped = false;
